@@ -301,8 +301,12 @@ def r205(ctx, rep, E, cfg, cbs):
         rep.finding("R20.5", E, f"{len(kw_calls)} keyword / {len(pos_calls)} positional callback calls", cbs[0].line,
                     "one of the two documented calling conventions (keyword intermediate_result / positional xk) is missing")
         return
+    from ..inline import expander
+    inl = expander(ctx, E)
     for ev in kw_calls + pos_calls:
         ctxs = enclosing_context(ev.stmt, E.node)
+        # a named predicate (`use_result = set(sig.parameters) == {..}`) is seen through
+        ctxs = [(k_, inl.expand(t_, n_), n_) if isinstance(t_, (ast.Name, ast.UnaryOp)) else (k_, t_, n_) for k_, t_, n_ in ctxs]
         sel = [c for c in ctxs if c[0] in ("if-true", "if-false") and mentions(c[1], "intermediate_result")]
         is_kw = ev in kw_calls
         desc = f"{E.local}:{ev.line} {'keyword' if is_kw else 'positional'} convention"
